@@ -27,7 +27,12 @@ GENS = [  # (rotation index, scale, translation)
     (20, 0.5, np.array([100.0, 200.0, -50.0])),
     (7, 1e-2, np.array([0.0, 0.0, 0.0])),
     (17, 1e2, np.array([1.0, 1.0, 1.0])),
+    # pure scalings about the origin (R = I, t = 0): the alignment must still
+    # apply the scale
+    (0, 2.0, np.zeros(3)),
+    (0, 0.5, np.zeros(3)),
 ]
+assert np.array_equal(ROT24[0], np.eye(3))
 MODES = ("rigid", "similarity", "scale_only", "origin")
 STORAGE = ("se3", "quat", "se3+read", "quat+read")
 
@@ -239,10 +244,37 @@ def apply_sim3(A, Rs, ps):
     return [Ra @ R for R in Rs], [A[:3, :3] @ p + A[:3, 3] for p in ps]
 
 
-def check_recorded(A, Rs, ps, stored, label, scale_coord):
+def expected_matrix(opt_name, Rs, ps, rR, rp, n):
+    """the transformation the options ask for, from the reference model
+    (None if the configuration does not determine it)"""
+    from mc.refmodel import pipeline as pl
+    est, ref = pl.RTraj(Rs, ps), pl.RTraj(rR, rp)
+    A = np.eye(4)
+    try:
+        if opt_name in ("-a", "-s", "-as", "-s --align_origin",
+                        "-a --align_origin"):
+            est, A = pl.align(est, ref, correct_scale="s" in
+                              opt_name.split()[0],
+                              only_scale=opt_name.split()[0] == "-s", n=n)
+        if "--align_origin" in opt_name:
+            est, T = pl.align_origin(est, ref)
+            A = T @ A
+    except (pl.Refusal, pl.Ambiguous):
+        return None
+    return A
+
+
+def check_recorded(A, Rs, ps, stored, label, scale_coord, expect=None):
     v = common.views(stored)
     if A is None:
         return ["%s: no alignment_transformation_sim3 recorded" % label]
+    if expect is not None:
+        s = np.cbrt(np.linalg.det(expect[:3, :3]))
+        if not common.close(np.array(A)[:3, :3], expect[:3, :3], max(1.0, s)) \
+                or not common.close(np.array(A)[:3, 3], expect[:3, 3],
+                                    scale_coord):
+            return ["%s: recorded alignment is not the one determined by the "
+                    "first n pose pairs (reference model)" % label]
     eR, ep = apply_sim3(np.array(A), Rs, ps)
     if v["n"] != len(ps):
         return ["%s: stored estimate has %d poses, expected %d" %
@@ -284,7 +316,9 @@ def run_recorded(case):
             continue
         A = res.np_arrays.get("alignment_transformation_sim3")
         msgs += check_recorded(A, Rs, ps, res.trajectories["est"],
-                               "%s(%s, n=%d)" % (tool, name, case["n"]), sc)
+                               "%s(%s, n=%d)" % (tool, name, case["n"]), sc,
+                               expected_matrix(name, Rs, ps, rR, rp,
+                                               case["n"]))
     return msgs
 
 
@@ -296,7 +330,7 @@ def shard_recorded(arg):
         for gen in (sum(seq) % len(GENS), (sum(seq) + 1) % len(GENS)):
             for noise in ("none", "one"):
                 for opt in range(len(OPTS)):
-                    for n in (-1, 3):
+                    for n in sorted({-1, 3, N - 1, N}):
                         case = {"seq": list(seq), "gen": gen, "noise": noise,
                                 "opt": opt, "n": n,
                                 "storage": STORAGE[(sum(seq) + opt) % 4]}
